@@ -10,12 +10,17 @@ From Coq Require Import List ZArith NArith QArith Qcanon Bool.
 Import ListNotations.
 Require Import UPV.Core.Expr UPV.Core.Eval UPV.Core.Interp UPV.Walkers.TypeInfer UPV.Walkers.Linear.
 
-Inductive slot := SFl (f : N) (args : list N) | SPar (p : N).
+Inductive slot := SFl (f : N) (args : list value) | SPar (p : N).   (* a ground fluent f(v1..vn) or a parameter *)
 
 Record case := {
-  c_orig : expr;                                   (* the expression passed to get_fluents *)
+  c_orig : expr;                                   (* the expression passed to get_fluents, with every REPORTED lifted fluent
+                                                      expression (a fluent applied to non-constant arguments, e.g. rate(pos))
+                                                      replaced by a fresh 0-ary fluent: the analysis treats a reported fluent
+                                                      expression as an independent quantity; an UNREPORTED one stays and is
+                                                      evaluated through the ground fluents it really reads *)
   c_simp : expr;                                   (* Simplifier.simplify of it: the walker's input *)
   c_obs : option (bool * list expr * list expr);   (* None = an exception was raised *)
+  c_oobs : option (bool * list expr * list expr);  (* the same answer with the same replacement (the oracle's view) *)
   c_doms : list (slot * list value)                (* occurring ground fluents / parameters, values in ascending order *)
 }.
 
@@ -33,7 +38,7 @@ Fixpoint assigns (d : list (slot * list value)) : list (list (slot * value)) :=
   end.
 
 Definition to_fi (a : list (slot * value)) : finterp :=
-  {| f_fl := flat_map (fun sv => match fst sv with SFl f args => [(f, map VObj args, snd sv)] | SPar _ => [] end) a;
+  {| f_fl := flat_map (fun sv => match fst sv with SFl f args => [(f, args, snd sv)] | SPar _ => [] end) a;
      f_par := flat_map (fun sv => match fst sv with SPar p => [(p, snd sv)] | SFl _ _ => [] end) a;
      f_var := []; f_ifun := []; f_objs := [] |}.
 
@@ -61,11 +66,13 @@ Fixpoint splits {A} (pre : list A) (l : list A) : list (A * list A) :=
   | x :: r => (x, pre ++ r) :: splits (pre ++ [x]) r
   end.
 
+Definition value_expr (v : value) : expr :=
+  match v with VObj o => EObj o | VNum q => num_node q | VBool b => EBool b end.
 Definition slot_expr (s : slot) : option expr :=
-  match s with SFl f args => Some (gfluent f args) | SPar _ => None end.
+  match s with SFl f args => Some (EFluent f (map value_expr args)) | SPar _ => None end.
 
 Definition oracle (c : case) : bool :=
-  match c_obs c with
+  match c_oobs c with
   | Some (true, pos, neg) =>
       forallb (fun xo =>
                  match slot_expr (fst (fst xo)) with
